@@ -9,6 +9,13 @@ pub mod alloc {
     pub use crate::alloc::{AllocError, AllocProxy, Allocator, CaoLangAllocator, SysAllocator};
 }
 
+/// The crate's own decoder of a string of the data section: (bytes consumed, text).
+/// The harness' bytecode verifier uses it so that it does not depend on the string encoding.
+pub fn decode_str(bts: &[u8]) -> Option<(usize, &str)> {
+    crate::bytecode::decode_str(bts)
+}
+
+
 /// The crate-private instruction set as `(opcode, name, span in bytes including the opcode)`,
 /// so an external bytecode verifier can cross-check its own operand-width table.
 pub fn instruction_table() -> Vec<(u8, String, usize)> {
